@@ -624,3 +624,28 @@ def _simple_types(ctx):
             res.finding('R-TAB.T7', f"{m_st.relpath}::__all__", f"{x} is exported", key=f"R-TAB.T7|__all__|missing|{x}")
     res.extra['simple_type_rows'] = n_rows
     res.floor('R-TAB.T7 simple type classes', n_rows, 151)
+
+
+def run_attribute_part(ctx):
+    """The attribute-table rows of C03 (T6 + R-EXH.attributes), for the properties that rest on them (C04, C09, C19)."""
+    sm, sc, res = ctx.sm, ctx.schema, ctx.res
+    names = sc.partwise_names()
+    decl_type = {}
+    for d in sc.partwise_decls():
+        decl_type.setdefault(d.name, set()).add((d.type, d.anonymous is not None))
+    anon_expected = {'score-partwise': ('XSDComplexTypeScorePartwise', 'score-partwise'),
+                     'part': ('XSDComplexTypePart', 'score-partwise/part'),
+                     'measure': ('XSDComplexTypeMeasure', 'score-partwise/part/measure'),
+                     'directive': ('XSDComplexTypeDirective', 'attributes/directive')}
+    el_classes = {c.name: c for c in T.direct_subclasses(sm, T.M_XMLELEMENT, 'XMLElement')}
+    embedded_ct = {}
+    for tname in sc.complex_types:
+        c = sm.get_class(T.xsd_class_name(tname, 'complex_type'), T.M_COMPLEX)
+        if c is not None:
+            tb = T.parse_tree_binding(c.bindings.get('_XSD_TREE'))
+            if tb and tb[0] == 'embedded':
+                embedded_ct[tname] = (c, tb[1])
+    res.rule('R-TAB.T3', "the literal key of XSD_TREE/_XSD_TREE equals the schema name the class name stands for")
+    res.rule('R-TAB.eval', "every name an eval() site can be asked for resolves in that module's namespace to the class for that component")
+    _attribute_tables(ctx, el_classes, names, decl_type, anon_expected, embedded_ct)
+    return el_classes, names, decl_type, anon_expected
